@@ -169,7 +169,9 @@ func boundary64(r *hlib.Rand) uint64 {
 }
 
 func boundary32(r *hlib.Rand) uint32 {
-	switch r.Intn(6) {
+	switch r.Intn(7) {
+	case 6:
+		return uint32(r.Range(1, 3))
 	case 0:
 		return 0
 	case 1:
@@ -348,6 +350,8 @@ func nestedGroups(depth int, closeAll bool) []byte {
 }
 
 func gen(r *hlib.Rand, n int, tier, profile string, emit func(string, ...any)) {
+	// hlib.NewRand(seed) places consecutive seeds one step apart on the same splitmix64 walk; jump away
+	r = hlib.NewRand(r.U64())
 	// recursion limit of ConsumeFieldValue: exactly at / one past the limit
 	for _, d := range []int{1, 2, 10000, 10001, 10002} {
 		emit("cfv 1 3 %s", hlib.Hex(nestedGroups(d, true)))
